@@ -171,6 +171,70 @@ def guard_raising(fn, exc_name, what):
     return hits[0]
 
 
+# ----------------------------------------------------------------------------- small decision functions
+def _bexpr(e, atoms, what):
+    """boolean Python expression -> Lean Bool text; `atoms` maps the source text of sub-expressions to Lean text,
+    string comparisons of a known attribute are given as atoms keyed by (attribute text, constant)"""
+    s = ast.unparse(e)
+    if s in atoms:
+        return atoms[s]
+    if isinstance(e, ast.Constant) and isinstance(e.value, bool):
+        return 'true' if e.value else 'false'
+    if isinstance(e, ast.UnaryOp) and isinstance(e.op, ast.Not):
+        return '(!%s)' % _bexpr(e.operand, atoms, what)
+    if isinstance(e, ast.BoolOp):
+        op = ' && ' if isinstance(e.op, ast.And) else ' || '
+        return '(' + op.join(_bexpr(v, atoms, what) for v in e.values) + ')'
+    if isinstance(e, ast.Compare) and len(e.ops) == 1:
+        l, r, op = e.left, e.comparators[0], e.ops[0]
+        if isinstance(r, ast.Constant) and isinstance(r.value, str) and (ast.unparse(l), r.value) in atoms:
+            base = atoms[(ast.unparse(l), r.value)]
+            if isinstance(op, ast.Eq):
+                return base
+            if isinstance(op, ast.NotEq):
+                return '(!%s)' % base
+        if isinstance(op, (ast.In, ast.NotIn)) and (ast.unparse(l), 'in', ast.unparse(r)) in atoms:
+            base = atoms[(ast.unparse(l), 'in', ast.unparse(r))]
+            return base if isinstance(op, ast.In) else '(!%s)' % base
+
+        def term(x):
+            sx = ast.unparse(x)
+            if sx in atoms:
+                return atoms[sx]
+            if isinstance(x, ast.Constant) and isinstance(x.value, int) and not isinstance(x.value, bool):
+                return str(x.value)
+            raise ExtractError('%s: cannot translate term `%s`' % (what, sx))
+        if type(op) in CMP:
+            return '(%s %s %s)' % (term(l), CMP[type(op)], term(r))
+    raise ExtractError('%s: cannot translate `%s`' % (what, s))
+
+
+def decision_function(fn, atoms, retval, what):
+    """a function whose body is a sequence of `if test: return X` statements (docstring, logging and plain
+    assignments are skipped) ending in `return Y` -> nested Lean `if ... then ... else ...` over Bool"""
+    clauses = []
+    final = None
+    for st in fn.body:
+        if isinstance(st, ast.Expr):          # docstring / logging call
+            continue
+        if isinstance(st, ast.Assign):
+            continue
+        if isinstance(st, ast.If) and not st.orelse and isinstance(st.body[-1], ast.Return) and \
+                all(isinstance(b, (ast.Expr, ast.Return)) for b in st.body):
+            clauses.append((st.test, st.body[-1].value))
+            continue
+        if isinstance(st, ast.Return):
+            final = st.value
+            break
+        raise ExtractError('%s: unexpected statement `%s`' % (what, ast.unparse(st)[:60]))
+    if final is None:
+        raise ExtractError('%s: no final return' % what)
+    expr = retval(final)
+    for test, val in reversed(clauses):
+        expr = '(if %s then %s else %s)' % (_bexpr(test, atoms, what), retval(val), expr)
+    return expr
+
+
 def generate():
     out = []
     emit = out.append
@@ -338,6 +402,43 @@ def generate():
     emit('/-- `exceeds_capacity`: tests on a merged allocation request against the provider summary -/')
     emit('def summaryExceeded (used amount capacity maxUnit : Int) : Bool :=')
     emit('  (' + ' || '.join(tr.bool(x) for x in tests) + ')')
+    emit('')
+
+    # ---------------------------------------------------------------- merging candidates (C02 / C03)
+    f = find_func(t, 'copy_arr_if_needed')
+    atoms = {('self.group_policy', 'none'): 'policyNone', ('self.group_policy', 'isolate'): 'isolate',
+             ('arr.resource_class', 'in', 'self.multi_group_rcs'): 'inMulti'}
+
+    def copy_ret(v):
+        sv = ast.unparse(v)
+        if sv == 'arr':
+            return 'false'
+        if sv in ('copy.copy(arr)', 'copy.deepcopy(arr)'):
+            return 'true'
+        raise ExtractError('copy_arr_if_needed: unexpected return value `%s`' % sv)
+    emit('/-- `RequestWideSearchContext.copy_arr_if_needed`: is the AllocationRequestResource COPIED before amounts of the')
+    emit('same (provider, class) are added onto it while allocation requests are consolidated? -/')
+    emit('def copyArrNeeded (policyNone isolate inMulti : Bool) : Bool :=')
+    emit('  ' + decision_function(f, atoms, copy_ret, 'copy_arr_if_needed'))
+    emit('')
+    t2 = ast.parse(src_of('objects/allocation_candidate.py'))
+    f = find_func(t2, '_satisfies_group_policy')
+    atoms = {('group_policy', 'isolate'): 'isolate', ('group_policy', 'none'): 'policyNone',
+             'num_granular_groups': 'numGranular', 'num_granular_groups_in_areqs': 'numDistinct'}
+
+    def bool_ret(atoms_):
+        def r(v):
+            return _bexpr(v, atoms_, 'return value')
+        return r
+    emit('/-- `_satisfies_group_policy`: `numDistinct` = number of distinct providers serving the granular groups -/')
+    emit('def groupPolicyOk (policyNone isolate : Bool) (numGranular numDistinct : Nat) : Bool :=')
+    emit('  ' + decision_function(f, atoms, bool_ret(atoms), '_satisfies_group_policy'))
+    emit('')
+    f = find_func(t2, '_check_same_subtree')
+    atoms = {'len(rp_uuids)': 'nProviders', 'len(common_ancestors.intersection(rp_uuids))': 'nCommonAmongThem'}
+    emit('/-- `_check_same_subtree`: `nCommonAmongThem` = how many of the providers are a common ancestor-or-self of all -/')
+    emit('def sameSubtreeOk (nProviders nCommonAmongThem : Nat) : Bool :=')
+    emit('  ' + decision_function(f, atoms, bool_ret(atoms), '_check_same_subtree'))
     emit('')
 
     # ---------------------------------------------------------------- constants
